@@ -33,7 +33,7 @@ func init() {
 
 // c12DeadlineSec: a loop that has not closed its result stream by then counts as hung (the
 // machine may be heavily loaded: runs normally take well under a second).
-const c12DeadlineSec = 90
+const c12DeadlineSec = 60
 
 type jm = map[string]interface{}
 type ja = []interface{}
@@ -330,6 +330,10 @@ func c12Worker(r *Run, ops []map[string]interface{}) {
 
 var c12WorkerSeq int64
 
+// c12Timeouts counts hung runs; after a few of them the remaining ops of the run are skipped (each
+// costs a full deadline; the hung ones are already reported).
+var c12Timeouts int64
+
 // c12RunAll executes ops in worker subprocesses (three at a time) and returns one observation per op.
 func c12RunAll(r *Run, ops []jm, chunk int) []jm {
 	out := make([]jm, len(ops))
@@ -370,6 +374,12 @@ func c12RunChunk(r *Run, ops []jm) (out []jm, notes []string) {
 	}
 	for i := 0; i < len(ops); {
 		end := len(ops)
+		if atomic.LoadInt64(&c12Timeouts) >= 3 {
+			for ; i < end; i++ {
+				out = append(out, jm{"skip": true, "why": "run abandoned after repeated timeouts"})
+			}
+			break
+		}
 		dir := filepath.Join(base, fmt.Sprintf("wk%d", atomic.AddInt64(&c12WorkerSeq, 1)))
 		os.MkdirAll(dir, 0o755)
 		inf := filepath.Join(dir, "in.ops")
@@ -421,6 +431,9 @@ func c12RunChunk(r *Run, ops []jm) (out []jm, notes []string) {
 		n := len(res)
 		if n < end-i {
 			lastTimeout := n > 0 && res[n-1]["timeout"] == true
+			if lastTimeout {
+				atomic.AddInt64(&c12Timeouts, 1)
+			}
 			if !lastTimeout {
 				// the op after the last answered one killed or wedged the worker
 				tail := ""
